@@ -276,7 +276,7 @@ func genC07(r *hx.Rand, thorough bool) *c07Case {
 	}
 	c.Formatter = hx.Pick(r, []string{"atlas", "atlas", "atlas", "golang-migrate", "goose", "flyway", "liquibase", "dbmate"})
 	if c.Formatter == "atlas" && r.Chance(1, 2) {
-		c.Delimiter = hx.Pick(r, []string{"\n\n\n", "//", "$$", ";;", "\n-- end\n", "GO", "|"})
+		c.Delimiter = hx.Pick(r, []string{"\n\n\n", "//", "$$", ";;", "\n-- end\n", "GO", "|", "\\g", "\n\\g", "\\\\", "\\;"})
 	}
 	_ = schema.Schema{}
 	return c
@@ -433,7 +433,7 @@ func runC07(e *Env) error {
 				}
 			}
 		}
-		e.Res.Rule = fmt.Sprintf("%d random schemas (1-3 tables; columns, defaults, enums, comments, checks, indexes, foreign keys; identifiers/literals adversarial with probability 0/30/60%%: quotes of the other kinds, semicolons, comment markers, newlines, backslashes, parentheses, dollar quotes, keywords, non-ASCII; the dialect's own quote character / trailing backslash in 1/12 of the cases) planned by the real MySQL/PostgreSQL/SQLite planners (indent '' or '  ', with/without empty qualifier) x formatter {atlas (default or one of 7 custom delimiters), golang-migrate, goose, flyway, liquibase, dbmate} + hand-made plans; non-trivial = plan with >= 2 statements; distinct by the whole case", n)
+		e.Res.Rule = fmt.Sprintf("%d random schemas (1-3 tables; columns, defaults, enums, comments, checks, indexes, foreign keys; identifiers/literals adversarial with probability 0/30/60%%: quotes of the other kinds, semicolons, comment markers, newlines, backslashes, parentheses, dollar quotes, keywords, non-ASCII; the dialect's own quote character / trailing backslash in 1/12 of the cases) planned by the real MySQL/PostgreSQL/SQLite planners (indent '' or '  ', with/without empty qualifier) x formatter {atlas (default or one of 11 custom delimiters, four of them with a backslash), golang-migrate, goose, flyway, liquibase, dbmate} + hand-made plans; non-trivial = plan with >= 2 statements; distinct by the whole case", n)
 	}
 	if e.Replay == "" {
 		c07Import(e, work)
